@@ -1,34 +1,456 @@
 //! Property-specific monitors (LRU, identities, interning, specify, ...).
 
+use std::collections::{BTreeMap, BTreeSet};
+
 use ql::ex::*;
-use ql::items::{Out, Rec, Sess};
+use ql::items::{F, Out, Rec, Sess};
 use ql::refm::{Expect, World};
 
 use crate::evid::Stats;
 use crate::mon::Flags;
 
-pub struct Sub {}
+/// Reference model of the LRU policy of `ev_lru` (C05).
+#[derive(Default)]
+pub struct LruModel {
+    pub cap: usize,
+    /// least recently used first
+    pub list: Vec<u64>,
+    /// key -> (computed from fully tracked dependencies, model believes the value is cached)
+    pub computed: BTreeMap<u64, (bool, bool)>,
+}
+
+impl LruModel {
+    fn touch(&mut self, key: u64) {
+        if self.cap == 0 {
+            return;
+        }
+        self.list.retain(|k| *k != key);
+        self.list.push(key);
+    }
+    /// eviction pass at the start of a new revision / on trigger
+    fn pass(&mut self) -> u64 {
+        let mut evicted = 0;
+        if self.cap == 0 {
+            return 0;
+        }
+        while self.list.len() > self.cap {
+            let k = self.list.remove(0);
+            if let Some(e) = self.computed.get_mut(&k) {
+                if e.0 && e.1 {
+                    e.1 = false;
+                    evicted += 1;
+                }
+            }
+        }
+        evicted
+    }
+    fn set_cap(&mut self, c: usize) {
+        self.cap = c;
+        if c == 0 {
+            self.list.clear();
+        }
+    }
+    pub fn believed_cached(&self, key: u64) -> Option<bool> {
+        self.computed.get(&key).map(|e| e.1)
+    }
+}
+
+/// C06: identity map of tracked structs.
+#[derive(Default)]
+pub struct IdentModel {
+    /// creator key -> structs of its last completed execution, in creation order (variant, ident, id)
+    pub last: BTreeMap<u64, Vec<(u8, u8, u64)>>,
+    /// struct id -> number of distinct struct-keyed functions that executed on it
+    pub funcs_on: BTreeMap<u64, BTreeSet<F>>,
+}
+
+/// C08 (sequential part) / C09: interned identities and the reclamation rule.
+#[derive(Default)]
+pub struct InternModel {
+    /// id -> (ty, data, ever interned at non-LOW durability, revision of last intern/revalidation)
+    pub info: BTreeMap<u64, (u8, u8, bool, u64)>,
+    /// current id of (ty, data)
+    pub cur: BTreeMap<(u8, u8), u64>,
+    /// slot index -> id currently occupying it
+    pub slot: BTreeMap<u32, u64>,
+    /// per type: revisions in which the type was used (ascending, distinct)
+    pub used: BTreeMap<u8, Vec<u64>>,
+    /// (ty, data) -> revisions in which it was interned (for "keeps identity" of C08)
+    pub interned_in: BTreeMap<(u8, u8), Vec<u64>>,
+}
+
+fn revisions_of(ty: u8) -> Option<usize> {
+    match ty {
+        1 => Some(1),
+        2 => Some(2),
+        3 => Some(3),
+        _ => None,
+    }
+}
+
+pub struct Sub {
+    pub lru: LruModel,
+    pub ident: IdentModel,
+    pub intern: InternModel,
+    prog: Program,
+    /// id bits of the code input of node i
+    pub node_keys: Vec<u64>,
+}
+
+fn starts_revision(op: &Op) -> bool {
+    matches!(op, Op::Set(..) | Op::SetD(..) | Op::Syn(_) | Op::SetExtSyn(..) | Op::Swap(_))
+}
 
 impl Sub {
     pub fn new(_flags: &Flags, _prog: &Program) -> Sub {
-        Sub {}
+        Sub { lru: LruModel { cap: 2, ..Default::default() }, ident: Default::default(), intern: Default::default(), prog: _prog.clone(), node_keys: Vec::new() }
     }
 
     #[allow(clippy::too_many_arguments)]
     pub fn after_op(
         &mut self,
-        _flags: &Flags,
+        flags: &Flags,
         _i: usize,
-        _op: &Op,
-        _exp: &Expect,
-        _out: &Out,
-        _log: &[Rec],
-        _sess: &mut Sess,
+        op: &Op,
+        exp: &Expect,
+        out: &Out,
+        log: &[Rec],
+        sess: &mut Sess,
         _world: &World,
         _pre_world: Option<&World>,
-        _stats: &mut Stats,
+        stats: &mut Stats,
         _rev: u64,
     ) -> Result<(), (String, String)> {
+        if flags.lru {
+            self.lru_after_op(op, exp, out, log, sess, stats)?;
+        }
+        if flags.ident {
+            self.ident_after_op(log, sess, stats)?;
+        }
+        if flags.intern {
+            self.intern_after_op(log, stats, _rev)?;
+        }
+        Ok(())
+    }
+
+    fn ident_after_op(&mut self, log: &[Rec], sess: &mut Sess, stats: &mut Stats) -> Result<(), (String, String)> {
+        use ql::items::EvK;
+        // creator activations: (key, created so far)
+        let mut stack: Vec<(F, u64, Vec<(u8, u8, u64)>)> = Vec::new();
+        let mut removed: Vec<u64> = Vec::new();
+        let mut discards: BTreeMap<u64, u32> = BTreeMap::new();
+        for r in log {
+            match r {
+                Rec::Enter { f, key, .. } => {
+                    if matches!(f, F::OnTs | F::OnTs2 | F::Sp | F::OnTsc) {
+                        self.ident.funcs_on.entry(*key).or_default().insert(*f);
+                    }
+                    stack.push((*f, *key, Vec::new()));
+                }
+                Rec::Made { variant, ident, id, .. } => {
+                    if let Some(fr) = stack.last_mut() {
+                        fr.2.push((*variant, *ident, *id));
+                    }
+                }
+                Rec::Exit { f, key, unwinding, .. } => {
+                    let Some(fr) = stack.pop() else { continue };
+                    if *f != F::Mk || *unwinding || fr.1 != *key {
+                        continue;
+                    }
+                    let cur = fr.2;
+                    // distinct within the execution
+                    let ids: BTreeSet<u64> = cur.iter().map(|x| x.2).collect();
+                    if ids.len() != cur.len() {
+                        return Err(("ident-not-distinct".into(), format!("creator {key} produced two structs with the same id: {cur:?}")));
+                    }
+                    // distinct across creators (live structs of other creators)
+                    for (k2, other) in &self.ident.last {
+                        if k2 != key {
+                            for o in other {
+                                if ids.contains(&o.2) {
+                                    return Err(("ident-not-distinct".into(), format!("struct id {} is used by creators {key} and {k2}", o.2)));
+                                }
+                            }
+                        }
+                    }
+                    if let Some(prev) = self.ident.last.get(key) {
+                        // stability for the honest-hash variant: same (ident, occurrence) => same id
+                        let occ = |v: &Vec<(u8, u8, u64)>| {
+                            let mut m: BTreeMap<(u8, u32), u64> = BTreeMap::new();
+                            let mut cnt: BTreeMap<u8, u32> = BTreeMap::new();
+                            for (var, ident, id) in v {
+                                if *var == 0 {
+                                    let c = cnt.entry(*ident).or_insert(0);
+                                    m.insert((*ident, *c), *id);
+                                    *c += 1;
+                                }
+                            }
+                            m
+                        };
+                        let (po, co) = (occ(prev), occ(&cur));
+                        for (k, id) in &co {
+                            if let Some(pid) = po.get(k) {
+                                stats.bump("identities_compared_across_executions", 1);
+                                if pid != id {
+                                    return Err((
+                                        "ident-unstable".into(),
+                                        format!("creator {key}: struct with identity value {} (occurrence {}) had id {pid} in the previous execution and has id {id} now", k.0, k.1),
+                                    ));
+                                }
+                            }
+                        }
+                        // colliding-hash variant: stable while the sequence of creations is unchanged
+                        let pc: Vec<&(u8, u8, u64)> = prev.iter().filter(|x| x.0 == 1).collect();
+                        let cc: Vec<&(u8, u8, u64)> = cur.iter().filter(|x| x.0 == 1).collect();
+                        for j in 0..pc.len().min(cc.len()) {
+                            if pc[j].1 != cc[j].1 {
+                                break;
+                            }
+                            stats.bump("identities_compared_across_executions", 1);
+                            if pc[j].2 != cc[j].2 {
+                                return Err((
+                                    "ident-unstable".into(),
+                                    format!("creator {key}: colliding-hash struct #{j} (identity {}) changed id {} -> {}", cc[j].1, pc[j].2, cc[j].2),
+                                ));
+                            }
+                        }
+                        for p in prev {
+                            if !ids.contains(&p.2) {
+                                removed.push(p.2);
+                            }
+                        }
+                    }
+                    self.ident.last.insert(*key, cur);
+                }
+                Rec::Ev { k: EvK::DidDiscard, key: Some(k), .. } => {
+                    *discards.entry(k.id).or_insert(0) += 1;
+                }
+                _ => {}
+            }
+        }
+        if !removed.is_empty() {
+            let (a, b) = ql::items::ts_entry_ids(&sess.db);
+            for id in &removed {
+                stats.bump("structs_no_longer_created", 1);
+                let nf = self.ident.funcs_on.get(id).map(|s| s.len()).unwrap_or(0) as u32;
+                let got = discards.get(id).copied().unwrap_or(0);
+                // a slot re-occupied in place by a new generation (identity fields changed under a
+                // colliding hash) is reclaimed without a discard event for the struct itself
+                let slot = *id & 0xFFFF_FFFF;
+                let reoccupied = self.ident.last.values().flatten().any(|x| x.2 != *id && (x.2 & 0xFFFF_FFFF) == slot);
+                if reoccupied {
+                    stats.bump("struct_slots_reoccupied_in_place", 1);
+                }
+                if !reoccupied && got < 1 + nf {
+                    return Err((
+                        "stale-struct-not-discarded".into(),
+                        format!("struct {id} is no longer created: expected a discard of the struct and of {nf} memoized results keyed by it, observed {got} discard events for that id"),
+                    ));
+                }
+                // `entries()` reports table slots (without generation)
+                let enumerated = a.iter().chain(b.iter()).any(|x| (*x & 0xFFFF_FFFF) == slot);
+                if !reoccupied && enumerated {
+                    return Err(("stale-struct-enumerated".into(), format!("struct {id} is no longer created but is still enumerated")));
+                }
+                self.ident.funcs_on.remove(id);
+            }
+        }
+        Ok(())
+    }
+
+    fn intern_after_op(&mut self, log: &[Rec], stats: &mut Stats, rev: u64) -> Result<(), (String, String)> {
+        use ql::items::EvK;
+        let m = &mut self.intern;
+        // code durability of the running function decides the durability of the interning
+        let mut stack: Vec<(F, u64)> = Vec::new();
+        let mut pending_reuse: Vec<u64> = Vec::new();
+        for r in log {
+            match r {
+                Rec::Enter { f, key, .. } => stack.push((*f, *key)),
+                Rec::Exit { .. } => {
+                    stack.pop();
+                }
+                Rec::Ev { k: EvK::DidReuseInterned, key: Some(k), .. } => pending_reuse.push(k.id),
+                Rec::Ev { k: EvK::DidValidateInterned, key: Some(k), .. } => {
+                    if let Some(e) = m.info.get_mut(&k.id) {
+                        e.3 = rev;
+                        let ty = e.0;
+                        let u = m.used.entry(ty).or_default();
+                        if u.last() != Some(&rev) {
+                            u.push(rev);
+                        }
+                    }
+                }
+                Rec::Interned { ty, data, id, in_query, .. } => {
+                    let u = m.used.entry(*ty).or_default();
+                    if u.last() != Some(&rev) {
+                        u.push(rev);
+                    }
+                    // durability class of this interning
+                    let low = if !*in_query {
+                        false
+                    } else {
+                        // the node whose body is running: first frame with a node key
+                        let node_dur = stack.iter().rev().find_map(|(f, key)| match f {
+                            F::Ev | F::NoEq | F::Lru | F::Fx | F::Fxj | F::Fb | F::Mk => Some(*key),
+                            F::Ev2 => Some(*key >> 8),
+                            _ => None,
+                        });
+                        match node_dur.and_then(|k| self.node_keys.iter().position(|x| *x == k)) {
+                            Some(n) => self.prog.nodes[n].dur == Dur::Low,
+                            None => false,
+                        }
+                    };
+                    let slot = (*id & 0xFFFF_FFFF) as u32;
+                    let reused_now = pending_reuse.contains(id);
+                    if reused_now {
+                        pending_reuse.retain(|x| x != id);
+                        stats.bump("interned_slots_reused", 1);
+                        // only-if conditions on the old occupant of the slot
+                        if let Some(old_id) = m.slot.get(&slot).copied() {
+                            if let Some((oty, odata, nonlow, last)) = m.info.get(&old_id).copied() {
+                                let Some(rv) = revisions_of(oty) else {
+                                    return Err(("reclaimed-immortal".into(), format!("a value of the type with collection disabled was reclaimed (data {odata})")));
+                                };
+                                if nonlow {
+                                    return Err(("reclaimed-durable".into(), format!("value (ty {oty}, data {odata}) was interned at non-LOW durability but its slot was reused")));
+                                }
+                                let used = m.used.get(&oty).cloned().unwrap_or_default();
+                                if used.len() < rv {
+                                    return Err(("reclaimed-too-early".into(), format!("type {oty}: reclamation after only {} revisions using the type (needs {rv})", used.len())));
+                                }
+                                let oldest = used[used.len() - rv];
+                                if last >= oldest {
+                                    return Err((
+                                        "reclaimed-recently-used".into(),
+                                        format!("value (ty {oty}, data {odata}) was last interned/revalidated in revision #{last}, which is among the last {rv} revisions using the type (oldest #{oldest}), but its slot was reused"),
+                                    ));
+                                }
+                                if m.cur.get(&(oty, odata)) == Some(&old_id) {
+                                    m.cur.remove(&(oty, odata));
+                                }
+                            }
+                        }
+                    }
+                    // identity of (ty, data)
+                    if let Some(prev) = m.cur.get(&(*ty, *data)).copied() {
+                        if prev != *id {
+                            // legal only if the previous id's slot has been taken over since
+                            let pslot = (prev & 0xFFFF_FFFF) as u32;
+                            if m.slot.get(&pslot) == Some(&prev) {
+                                return Err((
+                                    "interned-identity-changed".into(),
+                                    format!("value (ty {ty}, data {data}) had id {prev}, which was not reclaimed, but now has id {id}"),
+                                ));
+                            }
+                        } else {
+                            stats.bump("interned_identity_preserved", 1);
+                        }
+                    }
+                    // canonical: no other data shares this id
+                    if let Some((oty, odata, _, _)) = m.info.get(id) {
+                        if (*oty, *odata) != (*ty, *data) {
+                            return Err(("interned-alias".into(), format!("id {id} denotes (ty {oty}, data {odata}) and (ty {ty}, data {data})")));
+                        }
+                    }
+                    m.cur.insert((*ty, *data), *id);
+                    m.slot.insert(slot, *id);
+                    let e = m.info.entry(*id).or_insert((*ty, *data, false, rev));
+                    e.2 |= !low;
+                    e.3 = rev;
+                    m.interned_in.entry((*ty, *data)).or_default().push(rev);
+                }
+                _ => {}
+            }
+        }
+        Ok(())
+    }
+
+    fn lru_after_op(
+        &mut self,
+        op: &Op,
+        exp: &Expect,
+        out: &Out,
+        log: &[Rec],
+        sess: &mut Sess,
+        stats: &mut Stats,
+    ) -> Result<(), (String, String)> {
+        let panicked = matches!(out, Out::Panic(_)) || matches!(exp, Expect::Panic(_));
+        // 1. effects of the operation itself on the model
+        match op {
+            Op::LruCap(c) => self.lru.set_cap(*c as usize),
+            Op::LruTrig => {
+                let n = self.lru.pass();
+                stats.bump("lru_model_evictions", n);
+            }
+            _ if starts_revision(op) && !panicked => {
+                let n = self.lru.pass();
+                stats.bump("lru_model_evictions", n);
+            }
+            _ => {}
+        }
+        // 2. executions and fetches observed in the log
+        let mut open_calls: Vec<(F, u64)> = Vec::new();
+        let mut frames: Vec<(F, u64, bool)> = Vec::new();
+        for r in log {
+            match r {
+                Rec::CallBegin { f, key, .. } => open_calls.push((*f, *key)),
+                Rec::CallEnd { f, key, .. } => {
+                    if let Some(p) = open_calls.iter().rposition(|c| *c == (*f, *key)) {
+                        open_calls.truncate(p);
+                    }
+                    if *f == F::Lru {
+                        self.lru.touch(*key);
+                    }
+                }
+                Rec::Enter { f, key, .. } => {
+                    if *f == F::Lru {
+                        // (c) an evicted result is recomputed only inside a fetch of that key
+                        let in_fetch = open_calls.last() == Some(&(F::Lru, *key));
+                        if !in_fetch && self.lru.believed_cached(*key) == Some(false) {
+                            return Err((
+                                "evicted-recomputed-without-request".into(),
+                                format!("evicted lru result {key} was recomputed although it was not requested (enclosing call: {:?})", open_calls.last()),
+                            ));
+                        }
+                    }
+                    frames.push((*f, *key, false));
+                }
+                Rec::ReadExt { .. } => {
+                    if let Some(fr) = frames.last_mut() {
+                        fr.2 = true;
+                    }
+                }
+                Rec::Exit { f, key, unwinding, .. } => {
+                    if let Some(fr) = frames.pop() {
+                        if *f == F::Lru && !*unwinding && fr.0 == *f && fr.1 == *key {
+                            self.lru.computed.insert(*key, (!fr.2, true));
+                        }
+                    }
+                }
+                _ => {}
+            }
+        }
+        // 3. the bound, immediately after a new revision started or eviction was triggered
+        let pass_happened = matches!(op, Op::LruTrig) || (starts_revision(op) && !panicked);
+        if pass_happened && self.lru.cap > 0 {
+            let observed = ql::items::lru_cached_count(&sess.db);
+            let in_list: BTreeSet<u64> = self.lru.list.iter().copied().collect();
+            let nonqualifying = self.lru.computed.iter().filter(|(k, e)| e.1 && (!e.0 || !in_list.contains(k))).count();
+            stats.bump("lru_bound_checks", 1);
+            if observed > self.lru.cap + nonqualifying {
+                return Err((
+                    "lru-bound".into(),
+                    format!(
+                        "{observed} results of the lru function are cached after the eviction pass; capacity {} + {nonqualifying} results not subject to eviction (untracked origin or requested while eviction was disabled)",
+                        self.lru.cap
+                    ),
+                ));
+            }
+            if observed < self.lru.computed.values().filter(|e| e.1).count() {
+                stats.bump("lru_more_evicted_than_model", 1);
+            }
+        }
         Ok(())
     }
 
